@@ -367,7 +367,9 @@ func fixedCases() []histDesc {
 			d.Ops = append(d.Ops, opDesc{Op: "connect", N: 4, Port: f, Src: i})
 		}
 		d.Ops = append(d.Ops, opDesc{Op: "connect", N: 5, Port: "In", Src: 4})
-		for k := 0; k < 60; k++ {
+		// 240 idle reads: on the pinned tree each one re-executes the quad node unless two map
+		// iterations happen to agree (probability 1/24 per pair), so a miss is out of the question
+		for k := 0; k < 240; k++ {
 			d.Ops = append(d.Ops, opDesc{Op: "read", N: 5 - k%2})
 		}
 		out = append(out, d)
@@ -406,6 +408,35 @@ func fixedCases() []histDesc {
 			{Op: "read", N: 4}, {Op: "read", N: 4}, {Op: "connect", N: 2, Port: "In", Src: 1}, {Op: "read", N: 4}, {Op: "read", N: 4},
 			{Op: "disconnect", N: 2, Port: "In"}, {Op: "read", N: 3}, {Op: "read", N: 4}, {Op: "set", N: 0, V: 9}, {Op: "read", N: 4},
 			{Op: "connect", N: 2, Port: "In", Src: 0}, {Op: "read", N: 2}, {Op: "read", N: 4}, {Op: "read", N: 4}}
+		out = append(out, d)
+	}
+	// nodes without any input: executed once, then clean for ever
+	{
+		d := histDesc{Shape: "fixed-zero-input", Nodes: []nodeDesc{{Kind: "chain", Salt: 11}, {Kind: "arr", Salt: 12}, {Kind: "mix", Salt: 13}, {Kind: "pval", Init: 8}}}
+		for k := 0; k < 3; k++ {
+			d.Ops = append(d.Ops, opDesc{Op: "read", N: 0}, opDesc{Op: "read", N: 1}, opDesc{Op: "read", N: 2})
+		}
+		d.Ops = append(d.Ops, opDesc{Op: "connect", N: 1, Port: "Values.0", Src: 3}, opDesc{Op: "read", N: 1}, opDesc{Op: "disconnect", N: 1, Port: "Values.0"},
+			opDesc{Op: "read", N: 1}, opDesc{Op: "read", N: 1}, opDesc{Op: "set", N: 3, V: 1}, opDesc{Op: "read", N: 1})
+		out = append(out, d)
+	}
+	// chain read repeatedly: every node executes once per change of the parameter
+	{
+		d := histDesc{Shape: "fixed-chain-twice", Nodes: []nodeDesc{{Kind: "vnode", Init: 5}, {Kind: "chain", Salt: 1}, {Kind: "bin", Salt: 2}, {Kind: "chain", Salt: 3}}}
+		d.Ops = []opDesc{{Op: "connect", N: 1, Port: "In", Src: 0}, {Op: "connect", N: 2, Port: "A", Src: 1}, {Op: "connect", N: 2, Port: "B", Src: 0},
+			{Op: "connect", N: 3, Port: "In", Src: 2}, {Op: "read", N: 3}, {Op: "read", N: 3}, {Op: "read", N: 3}, {Op: "set", N: 0, V: 6},
+			{Op: "read", N: 3}, {Op: "read", N: 3}, {Op: "read", N: 2}, {Op: "set", N: 0, V: 7}, {Op: "read", N: 1}, {Op: "read", N: 3}, {Op: "read", N: 3}}
+		out = append(out, d)
+	}
+	// only the LAST dependency (in name order) changes; then a delete in the middle and again the last one
+	{
+		d := histDesc{Shape: "fixed-last-input", Nodes: []nodeDesc{{Kind: "pval", Init: 1}, {Kind: "pval", Init: 2}, {Kind: "vnode", Init: 3}, {Kind: "two", Salt: 4}, {Kind: "chain", Salt: 5}}}
+		d.Ops = []opDesc{{Op: "connect", N: 3, Port: "S", Src: 0}, {Op: "connect", N: 3, Port: "X.0", Src: 0}, {Op: "connect", N: 3, Port: "X.1", Src: 1}, {Op: "connect", N: 3, Port: "X.2", Src: 2},
+			{Op: "connect", N: 3, Port: "W.0", Src: 1}, {Op: "connect", N: 4, Port: "In", Src: 3},
+			{Op: "read", N: 4}, {Op: "set", N: 2, V: 30}, {Op: "read", N: 4}, {Op: "read", N: 4},
+			{Op: "disconnect", N: 3, Port: "X.1"}, {Op: "read", N: 4}, {Op: "set", N: 2, V: 31}, {Op: "read", N: 4}, {Op: "read", N: 4},
+			{Op: "disconnect", N: 3, Port: "S"}, {Op: "read", N: 4}, {Op: "set", N: 2, V: 32}, {Op: "read", N: 4},
+			{Op: "disconnect", N: 3, Port: "X.1"}, {Op: "read", N: 3}, {Op: "set", N: 2, V: 33}, {Op: "read", N: 4}, {Op: "set", N: 1, V: 20}, {Op: "read", N: 4}, {Op: "read", N: 4}}
 		out = append(out, d)
 	}
 	return out
